@@ -56,6 +56,19 @@ def check_result(case):
     tedges = {(e["data"]["source"], e["data"]["target"]) for e in tab if "source" in e["data"]}
     reach = _closure(tedges)
     stats = {"max_path": max([len(p) for p in paths] or [0]), "targets": len({str(p[-1]) for p in paths})}
+    # 'a column nothing feeds' is judged on the graph itself (two distinct nodes - columns of different subqueries that share an
+    # alias in different statements - print alike, so the exported ids cannot tell them apart); exported ids only as a fallback
+    holders = [h for sql, h in log][-nstmt:] if nstmt else []
+    try:
+        G = SQLLineageHolder.of(DummyMetaDataProvider(case.get("metadata") or {}), *holders).graph
+    except Exception:  # noqa
+        G = None
+
+    def _fed(c):
+        if G is None or c not in G:
+            return str(c) in incoming
+        return any(isinstance(u, Column) for u in G.predecessors(c))
+
     for p in paths:
         names = [observe.col_str(c) for c in p]
         if len(p) < 2:
@@ -66,7 +79,7 @@ def check_result(case):
             if (str(a), str(b)) not in cedges:
                 problems.append(("path", {"hop_without_exported_edge": [str(a), str(b)]}))
                 break
-        if str(p[0]) in incoming and len({str(c) for c in p}) == len(p):
+        if _fed(p[0]) and len({str(c) for c in p}) == len(p):
             problems.append(("path", {"first_node_has_incoming_edge": names[0]}))
         leaf = p[-1]
         if not isinstance(leaf.parent, Table):
@@ -80,7 +93,6 @@ def check_result(case):
             elif isinstance(leaf.parent, Table) and str(root.parent) != str(leaf.parent) and (str(root.parent), str(leaf.parent)) not in reach:
                 problems.append(("connect", {"no_table_level_connection": [str(root.parent), str(leaf.parent)]}))
     # combined graph rebuilt through the public assembler
-    holders = [h for sql, h in log][-nstmt:] if nstmt else []
     try:
         H = SQLLineageHolder.of(DummyMetaDataProvider(case.get("metadata") or {}), *holders)
         g = H.graph
